@@ -197,6 +197,18 @@ Proof.
            ltac:(rewrite LM; exact L) (DM e)).
 Qed.
 
+(* an expression as a statement (through the assignment probe of statement()) *)
+Theorem C13_stmt_expr : forall e, lower_ok e = true ->
+  forall p rest ov b, exists f0, forall f, f0 <= f ->
+    go gen_ptab (S f) (QStmt (mkctx p (print_min e ++ TK KNewline :: rest) ov b))
+    = Ok (RS (SExpr (emb (minp e)))
+             (pop_nl b (skip 1 (mkctx (rev (print_min e) ++ p) (TK KNewline :: rest) ov false)))).
+Proof.
+  intros e L. destruct lower_minp_all as [LM _]. destruct dwf_minp_all as [DM _].
+  exact (expr_stmt_roundtrip gen_ptab (C13_table_sound _ C13_table_ok) (proj1 C13_follow_nl_do) (minp e)
+           ltac:(rewrite LM; exact L) (DM e)).
+Qed.
+
 (* `loop e do B`: the condition is the tree of e, the body is parsed from `do` *)
 Theorem C13_loop_cond : forall e, lower_ok e = true ->
   forall p ts ov b, exists f0, forall f, f0 <= f -> forall body c3,
@@ -249,6 +261,7 @@ Print Assumptions C13_follow_nl_do.
 Print Assumptions C13_stmt_ret.
 Print Assumptions C13_stmt_def.
 Print Assumptions C13_stmt_assign.
+Print Assumptions C13_stmt_expr.
 Print Assumptions C13_loop_cond.
 Print Assumptions C13_if_cond.
 
